@@ -7,7 +7,7 @@ cAddrs == {"a1", "a2", "a3"}
 cKeyOrd == <<"v1", "none", "v9">>
 cGenesis == [keypers |-> <<"a1", "a2">>, thr |-> 2, eon0 |-> 0,
              vals |-> [k \in {"v1", "none", "v9"} |-> IF k = "v9" THEN 10 ELSE 0],
-             forkOn |-> FALSE, forkH |-> 0, dev |-> FALSE]
+             forkOn |-> FALSE, forkH |-> 0, dev |-> FALSE, legacy |-> FALSE]
 cCands == << [keypers |-> <<"a2", "a3">>, thr |-> 1, act |-> 1, idx |-> 1],
              [keypers |-> <<"a1", "a3">>, thr |-> 1, act |-> 1, idx |-> 2] >>
 cSeenBlocks == {1}
